@@ -135,11 +135,11 @@ func Run(c *rt.Ctx, s *Spec) Stats {
 				if v.Property == "HARNESS" {
 					rt.HarnessError("scenario %s history %v: %s", s.Name, h, v.What)
 				}
-				if v.Property != s.Prop {
-					c.Info(fmt.Sprintf("(outside %s) %s: %s", s.Prop, v.Key, v.What))
+				if !rt.HasProp(v.Property, s.Prop) {
+					c.Info(fmt.Sprintf("(outside %s) %s/%s: %s", s.Prop, v.Property, v.Key, v.What))
 					continue
 				}
-				c.Violate(v.Key, fmt.Sprintf("[%s] after history %v: %s", s.Name, h, v.What), map[string]any{"spec": s.Name, "hist": h})
+				c.Violate(s.Prop+"/"+v.Key, fmt.Sprintf("[%s] after history %v: %s", s.Name, h, v.What), map[string]any{"spec": s.Name, "hist": h})
 			}
 			if seen[res.Canon] {
 				return
@@ -247,8 +247,8 @@ func ReplayFile(prop string, specs map[string]*Spec, path string) int {
 	fmt.Println("state:  ", res.Canon)
 	code := 0
 	for _, x := range res.V {
-		fmt.Printf("  %s: %s\n", x.Key, x.What)
-		if x.Property == prop {
+		fmt.Printf("  %s/%s: %s\n", x.Property, x.Key, x.What)
+		if rt.HasProp(x.Property, prop) {
 			code = 1
 		}
 	}
